@@ -48,6 +48,11 @@ BUILTIN_ON_ARG = {
 }
 
 
+HANDLE = '@h:'                      # state key prefix: local name bound to X._container / a bound method of it
+NOT_HANDLE: Status = (CLEAN, '')
+MIXED: Status = (DIRTY, '<mixed>')
+
+
 def join(a: Status, b: Status) -> Status:
     return a if a[0] >= b[0] else b
 
@@ -55,7 +60,11 @@ def join(a: Status, b: Status) -> Status:
 def join_states(a: State, b: State, default: T.Callable[[str], Status]) -> State:
     out: State = {}
     for k in set(a) | set(b):
-        out[k] = join(a.get(k) or default(k), b.get(k) or default(k))
+        if k.startswith(HANDLE):
+            x, y = a.get(k, NOT_HANDLE), b.get(k, NOT_HANDLE)
+            out[k] = x if x == y else MIXED
+        else:
+            out[k] = join(a.get(k) or default(k), b.get(k) or default(k))
     return out
 
 
@@ -240,8 +249,8 @@ class Analysis:
         key = (id(fn), cls_key)
         if key not in fam._static:
             self._pairs = self._assign_pairs_raw()
-            fam._static[key] = (self._pairs, self._tracked(), self._may_alias())
-        self._pairs, self.tracked, self.alias = fam._static[key]
+            fam._static[key] = (self._pairs, self._tracked(), self._may_alias(), self._handles())
+        self._pairs, self.tracked, self.alias, self.handles = fam._static[key]
         self.exempt_self = ''
         if self.is_method and fn.name == '__init__':
             self.exempt_self = 'init'
@@ -295,6 +304,54 @@ class Analysis:
                     out.append((tk, '<fresh>'))
                     if self._ctor_of(arm) is None:   # K.copy(): K is a lazy list whenever the target is one
                         out.append((tk, '<recv>' + attr_chain(arm.func.value)))  # type: ignore[attr-defined,operator]
+        return out
+
+    def _handles(self) -> T.Dict[str, T.Optional[str]]:
+        """Locals that hold the raw list of a receiver or a bound method of it (`direct = X._container.append`,
+        `items = X._container`): local name -> receiver key (None: the name is also bound to something else).
+        Using such a handle later is an access to X._container at the point of use."""
+        raw: T.Dict[str, T.Set[T.Optional[str]]] = {}
+        binds: T.List[T.Tuple[str, ast.AST]] = []
+        for n in walk_no_nested(self.fn, include_root=False):
+            if isinstance(n, ast.Assign):
+                for t in n.targets:
+                    if isinstance(t, ast.Name):
+                        binds.append((t.id, n.value))
+                    else:
+                        for x in ast.walk(t):
+                            if isinstance(x, ast.Name) and isinstance(x.ctx, ast.Store):
+                                binds.append((x.id, ast.Constant(value=None)))
+            elif isinstance(n, (ast.AnnAssign, ast.NamedExpr)) and isinstance(n.target, ast.Name) and n.value is not None:
+                binds.append((n.target.id, n.value))
+            elif isinstance(n, (ast.For, ast.AsyncFor, ast.comprehension)):
+                for x in ast.walk(n.target):
+                    if isinstance(x, ast.Name):
+                        binds.append((x.id, ast.Constant(value=None)))
+            elif isinstance(n, ast.withitem) and n.optional_vars is not None:
+                for x in ast.walk(n.optional_vars):
+                    if isinstance(x, ast.Name):
+                        binds.append((x.id, ast.Constant(value=None)))
+        out: T.Dict[str, T.Optional[str]] = {}
+        for _ in range(4):
+            raw = {}
+            for name, val in binds:
+                owner: T.Optional[str] = None
+                for arm in _arms(val):
+                    c = attr_chain(arm)
+                    k: T.Optional[str] = None
+                    if c is not None:
+                        parts = c.split('.')
+                        if STORE in parts[1:]:
+                            k = '.'.join(parts[:parts.index(STORE, 1)])
+                        elif parts[0] in out and out[parts[0]] is not None and parts[0] != name:
+                            k = out[parts[0]]
+                    raw.setdefault(name, set()).add(k)
+                    owner = k
+                del owner
+            new = {n_: (next(iter(ks)) if len(ks) == 1 else None) for n_, ks in raw.items() if any(k is not None for k in ks)}
+            if new == out:
+                break
+            out = new
         return out
 
     def _is_fresh(self, e: ast.AST) -> bool:
@@ -453,6 +510,7 @@ class Analysis:
             kk = attr_chain(n)
             if kk is not None and isinstance(n, (ast.Name, ast.Attribute)) and isinstance(getattr(n, 'ctx', None), ast.Store):
                 st[kk] = (UNKNOWN, f'`{kk}` is bound by a loop/with/unpacking target')
+                st.pop(HANDLE + kk, None)
         # stores through the target (x._container[i] as loop target) are not an idiom of this code
         for n in ast.walk(target):
             if isinstance(n, ast.Attribute) and n.attr == STORE:
@@ -541,6 +599,29 @@ class Analysis:
             self.ev(target, st, False)
             return
         kk = attr_chain(target)
+        if isinstance(target, ast.Name) and target.id in self.handles:
+            owners: T.Set[T.Optional[str]] = set()
+            for arm in _arms(value):
+                c = attr_chain(arm)
+                k: T.Optional[str] = None
+                if c is not None:
+                    parts = c.split('.')
+                    if STORE in parts[1:]:
+                        k = '.'.join(parts[:parts.index(STORE, 1)])
+                    else:
+                        h = st.get(HANDLE + parts[0], NOT_HANDLE)
+                        if h == MIXED:
+                            raise Undecided(f'{self.qname}: `{parts[0]}` holds a raw _container on some paths only')
+                        k = h[1] or None
+                if k is not None and k.split('.')[0] == target.id:
+                    k = None       # `x = x._container`: the owner is no longer reachable by name, nothing here can re-queue into it
+                owners.add(k)
+            if owners == {None}:
+                st.pop(HANDLE + target.id, None)
+            elif len(owners) == 1:
+                st[HANDLE + target.id] = (CLEAN, next(iter(owners)))  # type: ignore[assignment]
+            else:
+                st[HANDLE + target.id] = MIXED
         if kk is not None:
             if kk in self.tracked or kk in st:
                 st[kk] = res
@@ -569,8 +650,15 @@ class Analysis:
                 return self.fam.ctor_status(ck)
         return (UNKNOWN, f'value of `{short(e, 50)}`')
 
-    def access(self, node: ast.Attribute, st: State) -> None:
+    def access(self, node: T.Any, st: State, owner: T.Optional[str] = None) -> None:
         if not self._record:
+            return
+        if owner is not None:      # use of a captured handle of owner._container
+            s = self.get(st, owner)
+            if s[0] != CLEAN:
+                s = (s[0], s[1] + f'; `{node.id}` was bound to {owner}.{STORE} earlier and is used here')
+            exempt = self.exempt_self if (owner == 'self' and self.exempt_self) else ''
+            self.accesses.append(Access(self.qname, owner, node, s, exempt, self._top))
             return
         kk = attr_chain(node.value)
         if kk is None:
@@ -640,6 +728,14 @@ class Analysis:
         if e is None:
             return
         if isinstance(e, (ast.Lambda, ast.FunctionDef, ast.AsyncFunctionDef, ast.ClassDef)):
+            return
+        if isinstance(e, ast.Name):
+            if isinstance(e.ctx, ast.Load) and e.id in self.handles:
+                h = st.get(HANDLE + e.id, NOT_HANDLE)
+                if h == MIXED:
+                    raise Undecided(f'{self.qname}: `{e.id}` holds a raw _container (or a bound method of it) on some paths only')
+                if h[1]:
+                    self.access(e, st, h[1])
             return
         if isinstance(e, ast.Attribute):
             self.ev(e.value, st, cond)
@@ -789,5 +885,5 @@ def _is_empty(v: ast.AST) -> bool:
     return False
 
 
-def _lv(st: State) -> T.Dict[str, int]:
-    return {k: v[0] for k, v in st.items()}
+def _lv(st: State) -> T.Dict[str, T.Any]:
+    return {k: (v if k.startswith(HANDLE) else v[0]) for k, v in st.items() if not (k.startswith(HANDLE) and v == NOT_HANDLE)}
